@@ -34,8 +34,8 @@ import (
 )
 
 const (
-	c09BulkQuick, c09BombQuick       = 8, 20
-	c09BulkThorough, c09BombThorough = 16, 20
+	c09BulkQuick, c09BombQuick       = 8, 23
+	c09BulkThorough, c09BombThorough = 16, 23
 )
 
 func init() {
@@ -43,7 +43,7 @@ func init() {
 		ID:    "C09",
 		Level: "exploration",
 		Rule: "hostile inputs offered to every untrusted-data entry point (token.* / delegation.* / invocation.* decoders for DAG-CBOR and DAG-JSON, bytes and reader; container.From* x4; policy.FromDagJson / FromIPLD + Match / PartialMatch against arbitrary nodes; selector.Parse + Select; did.Parse + PubKey / ToPubKey; args.Add / literal.Any with arbitrary nodes): " +
-			"(a) random bytes / text; (b) byte- and structure-level mutants of valid sealed tokens, DAG-JSON tokens and containers; (c) WELL-SIGNED envelopes around malformed payloads (every field dropped / wrong kind / null / huge, integers over the whole CBOR range incl. 2^63..2^64-1 and -2^64 in args, meta, policy values, exp/nbf/iat, nesting in args/meta/pol); (d) iss/aud/sub strings carrying every supported multicodec over invalid key material (reaches PubKey() before the signature check); (e) hostile lengths (array/map/bytes/text prefixes up to 2^64-1, CAR section lengths 0, 32 MiB+-1, 2^63) and a fixed list of depth bombs (nested arrays, maps, tags, JSON nesting, nested not-policies; 10^4 .. 4*10^6 levels) run in dedicated processes; (f) policies x data trees of every kind incl. unsigned integers above 2^63, NaN/Inf, empty collections. " +
+			"(a) random bytes / text; (b) byte- and structure-level mutants of valid sealed tokens, DAG-JSON tokens and containers; (c) WELL-SIGNED envelopes around malformed payloads (every field dropped / wrong kind / null / huge, integers over the whole CBOR range incl. 2^63..2^64-1 and -2^64 in args, meta, policy values, exp/nbf/iat, nesting in args/meta/pol); (d) iss/aud/sub strings carrying every supported multicodec over invalid key material (reaches PubKey() before the signature check); (e) hostile lengths (array/map/bytes/text prefixes up to 2^64-1, CAR section lengths 0, 32 MiB+-1, 2^63) and a fixed list of depth bombs (nested arrays, maps, tags, JSON nesting, nested not-policies; 10^4 .. 4*10^6 levels) and of small nested-quantifier / nested-connective policies over nested lists (depth 4..64, whose evaluation must stay linear) run in dedicated processes; (f) policies x data trees of every kind incl. unsigned integers above 2^63, NaN/Inf, empty collections. " +
 			"Monitors: in-process recover() (panic = violation, with stack); journal-before-call + parent supervision (a dead worker = fatal error attributed to its last journalled input); per-call CPU time (getrusage) against the stated budget (60 s for inputs <= 1 MiB, 300 s above); peak RSS (VmHWM) of the depth-bomb processes against 512 MiB + 4096 x len(input); thorough: the bulk families replayed on the -race build (checkptr). " +
 			"non-trivial = input that got past the first decoding layer (a CBOR/JSON value, a parsed selector, a parsed DID); distinct = input hash.",
 		Assumptions: []string{
@@ -61,7 +61,7 @@ func init() {
 		MinEvals:    floor(100000, 2000000),
 		MinDistinct: floor(20000, 300000),
 		RequiredCells: func(string) []string {
-			cells := []string{"family/a-random", "family/b-mutants", "family/c-signed-malformed", "family/d-bad-key-material", "family/e-hostile-lengths", "family/f-policy-x-data", "bomb/cbor-list", "bomb/cbor-map", "bomb/json-list", "bomb/policy-not", "bomb/signed-deep-args", "bomb/signed-deep-pol", "bomb/selector-long", "rss-measured", "past-first-layer"}
+			cells := []string{"family/a-random", "family/b-mutants", "family/c-signed-malformed", "family/d-bad-key-material", "family/e-hostile-lengths", "family/f-policy-x-data", "bomb/cbor-list", "bomb/cbor-map", "bomb/json-list", "bomb/policy-not", "bomb/signed-deep-args", "bomb/signed-deep-pol", "bomb/selector-long", "bomb/policy-nested-any-failing", "bomb/policy-nested-all-passing", "bomb/policy-nested-and-or-not", "rss-measured", "past-first-layer"}
 			for _, e := range []string{"token.FromSealed", "token.FromDagJson", "delegation.FromSealed", "invocation.FromSealed", "container.FromCbor", "container.FromCar", "container.FromCborBase64", "container.FromCarBase64", "policy.FromDagJson", "policy.FromIPLD", "Policy.Match", "selector.Parse", "Selector.Select", "did.Parse", "DID.PubKey", "args.Add", "literal.Any"} {
 				cells = append(cells, "entry/"+e)
 			}
@@ -845,30 +845,71 @@ func c09Bombs(w *mon.W, part, parts int) {
 	c := &c09{w: w, family: "e-depth-bombs"}
 	depths := []int{10000, 100000, 1000000, 2500000, 4000000}
 	type series struct {
-		kind  string
-		entry string
-		build func(n int) []byte
-		run   func(in []byte)
-		max   int
+		kind   string
+		entry  string
+		build  func(n int) []byte
+		run    func(in []byte)
+		max    int
+		depths []int // overrides the default depth list
 	}
+	// nested quantifiers / connectives over nested lists: tiny inputs whose evaluation must stay
+	// linear in their size (an evaluator that re-visits operands is exponential in the depth)
+	nestedPolicy := func(kind string, inner bool) func(n int) []byte {
+		return func(n int) []byte {
+			st := ref.Stmt{Kind: "==", Sel: ref.Sel{}, Val: ref.Int(1)}
+			if !inner {
+				st.Val = ref.Int(2)
+			}
+			for i := 0; i < n; i++ {
+				switch kind {
+				case "any", "all":
+					st = ref.Stmt{Kind: kind, Sel: ref.Sel{}, Subs: []ref.Stmt{st}}
+				case "and", "or":
+					st = ref.Stmt{Kind: kind, Subs: []ref.Stmt{st, st}}
+				default:
+					st = ref.Stmt{Kind: "not", Subs: []ref.Stmt{st}}
+				}
+			}
+			b, _ := ref.EncodeDagJson(ref.Policy{st}.ToV())
+			return b
+		}
+	}
+	runNested := func(listDepth bool) func(in []byte) {
+		return func(in []byte) {
+			p, err := policy.FromDagJson(string(in))
+			if err != nil {
+				return
+			}
+			d := ref.Int(1)
+			for i := 0; i < 70; i++ {
+				d = ref.List(d)
+			}
+			if !listDepth {
+				d = ref.Int(1)
+			}
+			_, _ = p.Match(d.Node())
+			_, _ = p.PartialMatch(d.Node())
+		}
+	}
+	small := []int{4, 8, 16, 24, 32, 48, 64}
 	all := []series{
-		{"cbor-list", "token.FromSealed", func(n int) []byte { return append(bytes.Repeat([]byte{0x81}, n), 0x00) }, func(in []byte) { _, _, _ = token.FromSealed(in) }, 0},
-		{"cbor-list", "container.FromCbor", func(n int) []byte { return append(bytes.Repeat([]byte{0x81}, n), 0x00) }, func(in []byte) { _, _ = container.FromCbor(in) }, 0},
+		{"cbor-list", "token.FromSealed", func(n int) []byte { return append(bytes.Repeat([]byte{0x81}, n), 0x00) }, func(in []byte) { _, _, _ = token.FromSealed(in) }, 0, nil},
+		{"cbor-list", "container.FromCbor", func(n int) []byte { return append(bytes.Repeat([]byte{0x81}, n), 0x00) }, func(in []byte) { _, _ = container.FromCbor(in) }, 0, nil},
 		{"cbor-list", "container.FromCar", func(n int) []byte {
 			b := append(bytes.Repeat([]byte{0x81}, n), 0x00)
 			return append(binary.AppendUvarint(nil, uint64(len(b))), b...)
-		}, func(in []byte) { _, _ = container.FromCar(in) }, 0},
-		{"cbor-map", "token.FromSealed", func(n int) []byte { return append(bytes.Repeat([]byte{0xa1, 0x61, 0x61}, n), 0x00) }, func(in []byte) { _, _, _ = token.FromSealed(in) }, 0},
-		{"cbor-map", "delegation.FromSealed", func(n int) []byte { return append(bytes.Repeat([]byte{0xa1, 0x61, 0x61}, n), 0x00) }, func(in []byte) { _, _, _ = delegation.FromSealed(in) }, 0},
-		{"cbor-tag", "token.FromSealed", func(n int) []byte { return append(bytes.Repeat([]byte{0xd8, 0x2a}, n), 0x00) }, func(in []byte) { _, _, _ = token.FromSealed(in) }, 0},
-		{"cbor-indefinite", "invocation.FromSealed", func(n int) []byte { return append(bytes.Repeat([]byte{0x9f}, n), bytes.Repeat([]byte{0xff}, n)...) }, func(in []byte) { _, _, _ = invocation.FromSealed(in) }, 0},
+		}, func(in []byte) { _, _ = container.FromCar(in) }, 0, nil},
+		{"cbor-map", "token.FromSealed", func(n int) []byte { return append(bytes.Repeat([]byte{0xa1, 0x61, 0x61}, n), 0x00) }, func(in []byte) { _, _, _ = token.FromSealed(in) }, 0, nil},
+		{"cbor-map", "delegation.FromSealed", func(n int) []byte { return append(bytes.Repeat([]byte{0xa1, 0x61, 0x61}, n), 0x00) }, func(in []byte) { _, _, _ = delegation.FromSealed(in) }, 0, nil},
+		{"cbor-tag", "token.FromSealed", func(n int) []byte { return append(bytes.Repeat([]byte{0xd8, 0x2a}, n), 0x00) }, func(in []byte) { _, _, _ = token.FromSealed(in) }, 0, nil},
+		{"cbor-indefinite", "invocation.FromSealed", func(n int) []byte { return append(bytes.Repeat([]byte{0x9f}, n), bytes.Repeat([]byte{0xff}, n)...) }, func(in []byte) { _, _, _ = invocation.FromSealed(in) }, 0, nil},
 		{"json-list", "token.FromDagJson", func(n int) []byte {
 			return append(bytes.Repeat([]byte{'['}, n), bytes.Repeat([]byte{']'}, n)...)
-		}, func(in []byte) { _, _ = token.FromDagJson(in) }, 0},
+		}, func(in []byte) { _, _ = token.FromDagJson(in) }, 0, nil},
 		{"json-map", "token.FromDagJson", func(n int) []byte {
 			b := append(bytes.Repeat([]byte(`{"a":`), n), '1')
 			return append(b, bytes.Repeat([]byte{'}'}, n)...)
-		}, func(in []byte) { _, _ = token.FromDagJson(in) }, 1000000},
+		}, func(in []byte) { _, _ = token.FromDagJson(in) }, 1000000, nil},
 		{"policy-not", "policy.FromDagJson", func(n int) []byte {
 			b := append([]byte{'['}, bytes.Repeat([]byte(`["not",`), n)...)
 			b = append(b, []byte(`["==",".a",1]`)...)
@@ -879,7 +920,7 @@ func c09Bombs(w *mon.W, part, parts int) {
 			if err == nil {
 				_, _ = p.Match(ref.Map(ref.E("a", ref.Int(1))).Node())
 			}
-		}, 1000000},
+		}, 1000000, nil},
 		{"policy-and", "policy.FromDagJson", func(n int) []byte {
 			b := append([]byte{'['}, bytes.Repeat([]byte(`["and",[`), n)...)
 			b = append(b, []byte(`["==",".a",1]`)...)
@@ -890,31 +931,40 @@ func c09Bombs(w *mon.W, part, parts int) {
 			if err == nil {
 				_, _ = p.Match(ref.Map(ref.E("a", ref.Int(1))).Node())
 			}
-		}, 1000000},
-		{"signed-deep-args", "invocation.FromSealed", func(n int) []byte { return spliceDeep("inv", "args", n, false) }, func(in []byte) { _, _, _ = invocation.FromSealed(in) }, 0},
-		{"signed-deep-args-map", "token.FromSealed", func(n int) []byte { return spliceDeep("inv", "args", n, true) }, func(in []byte) { _, _, _ = token.FromSealed(in) }, 0},
-		{"signed-deep-meta", "delegation.FromSealed", func(n int) []byte { return spliceDeep("dlg", "meta", n, false) }, func(in []byte) { _, _, _ = delegation.FromSealed(in) }, 0},
+		}, 1000000, nil},
+		{"signed-deep-args", "invocation.FromSealed", func(n int) []byte { return spliceDeep("inv", "args", n, false) }, func(in []byte) { _, _, _ = invocation.FromSealed(in) }, 0, nil},
+		{"signed-deep-args-map", "token.FromSealed", func(n int) []byte { return spliceDeep("inv", "args", n, true) }, func(in []byte) { _, _, _ = token.FromSealed(in) }, 0, nil},
+		{"signed-deep-meta", "delegation.FromSealed", func(n int) []byte { return spliceDeep("dlg", "meta", n, false) }, func(in []byte) { _, _, _ = delegation.FromSealed(in) }, 0, nil},
 		{"signed-deep-pol", "delegation.FromSealed", func(n int) []byte { return spliceDeep("dlg", "pol", n, false) }, func(in []byte) {
 			t, _, err := delegation.FromSealed(in)
 			if err == nil {
 				_, _ = t.Policy().Match(ref.Map(ref.E("a", ref.Int(1))).Node())
 			}
-		}, 1000000},
+		}, 1000000, nil},
+		{"policy-nested-any-failing", "Policy.Match", nestedPolicy("any", false), runNested(true), 0, small},
+		{"policy-nested-all-passing", "Policy.Match", nestedPolicy("all", true), runNested(true), 0, small},
+		{"policy-nested-and-or-not", "Policy.Match", func(n int) []byte {
+			k := []string{"and", "or", "not"}[n%3]
+			if n > 24 {
+				n = 24 // and/or double their operand: 2^24 leaves is the cap for a small input
+			}
+			return nestedPolicy(k, n%2 == 0)(n)
+		}, runNested(false), 0, []int{4, 8, 12, 16, 18, 20}},
 		{"selector-long", "selector.Parse", func(n int) []byte { return bytes.Repeat([]byte(".a"), n) }, func(in []byte) {
 			s, err := selector.Parse(string(in))
 			if err == nil {
 				_, _ = s.Select(ref.Map(ref.E("a", ref.Int(1))).Node())
 				_ = len(s.String())
 			}
-		}, 0},
-		{"selector-brackets", "selector.Parse", func(n int) []byte { return append([]byte{'.'}, bytes.Repeat([]byte("[0]"), n)...) }, func(in []byte) { _, _ = selector.Parse(string(in)) }, 0},
+		}, 0, nil},
+		{"selector-brackets", "selector.Parse", func(n int) []byte { return append([]byte{'.'}, bytes.Repeat([]byte("[0]"), n)...) }, func(in []byte) { _, _ = selector.Parse(string(in)) }, 0, nil},
 		{"glob-stars", "Policy.Match", func(n int) []byte { return bytes.Repeat([]byte("*a"), n/10+1) }, func(in []byte) {
 			p, err := policy.Construct(policy.Like(".", string(in)))
 			if err == nil {
 				_, _ = p.Match(ref.Str(strings.Repeat("a", len(in)/2) + "b").Node())
 			}
-		}, 100000},
-		{"did-long", "did.Parse", func(n int) []byte { return append([]byte("did:key:z"), bytes.Repeat([]byte("1"), n)...) }, func(in []byte) { _, _ = did.ToPubKey(string(in)) }, 1000000},
+		}, 100000, nil},
+		{"did-long", "did.Parse", func(n int) []byte { return append([]byte("did:key:z"), bytes.Repeat([]byte("1"), n)...) }, func(in []byte) { _, _ = did.ToPubKey(string(in)) }, 1000000, nil},
 		{"ipld-deep-policy-node", "policy.FromIPLD", func(n int) []byte { return []byte(strconv.Itoa(n)) }, func(in []byte) {
 			n, _ := strconv.Atoi(string(in))
 			if n > 1000000 {
@@ -927,16 +977,21 @@ func c09Bombs(w *mon.W, part, parts int) {
 			}
 			_, _ = policy.FromIPLD(nd)
 			_ = dagjson.Encode
-		}, 1000000},
+		}, 1000000, nil},
 	}
 	if len(all) != parts {
 		w.Inconclusive(fmt.Sprintf("C09: %d bomb series but %d bomb shards", len(all), parts))
 	}
+	maxIn := 0
 	for si, s := range all {
 		if si%parts != part {
 			continue
 		}
-		for _, n := range depths {
+		ds := depths
+		if s.depths != nil {
+			ds = s.depths
+		}
+		for _, n := range ds {
 			if s.max > 0 && n > s.max {
 				continue
 			}
@@ -961,8 +1016,13 @@ func c09Bombs(w *mon.W, part, parts int) {
 			// peak memory so far against the affine bound
 			if hwm := vmHWM(); hwm > 0 {
 				w.Cover("rss-measured")
-				bound := int64(512<<20) + 4096*int64(len(in))
-				w.Note("rss/"+s.entry+"/"+class, fmt.Sprintf("input %d bytes, peak RSS so far %d MiB (bound %d MiB)", len(in), hwm>>20, bound>>20))
+				// VmHWM is the high-water mark of the whole process: compare it with the bound of the
+				// largest input this process has been given so far
+				if len(in) > maxIn {
+					maxIn = len(in)
+				}
+				bound := int64(512<<20) + 4096*int64(maxIn)
+				w.Note("rss/"+s.entry+"/"+class, fmt.Sprintf("input %d bytes (largest so far %d), peak RSS so far %d MiB (bound %d MiB)", len(in), maxIn, hwm>>20, bound>>20))
 				if hwm > bound {
 					w.Violate("memory-bound/"+s.entry+"/"+s.kind, fmt.Sprintf("peak RSS %d MiB after %s on a %d-byte %s input exceeds 512 MiB + 4096 x input", hwm>>20, s.entry, len(in), class),
 						map[string]any{"entry": s.entry, "input_class": class, "input_len": len(in), "peak_rss": hwm})
